@@ -30,6 +30,7 @@ type c04Expr struct {
 	Str    string   `json:"str,omitempty"`
 	Bool   bool     `json:"bool,omitempty"`
 	Var    int      `json:"var,omitempty"`
+	Field  bool     `json:"field,omitempty"` // var: read as the field .V<n> of the context instead of the variable v<n>
 	Bop    string   `json:"bop,omitempty"`
 	Word   bool     `json:"word,omitempty"`
 	Tight  bool     `json:"tight,omitempty"`
@@ -67,13 +68,14 @@ type c04Gen struct {
 func (g *c04Gen) n(lo, hi int, l string) int { return rapid.IntRange(lo, hi).Draw(g.t, l) }
 
 func (g *c04Gen) addVar(v c04Var) *c04Expr {
+	field := g.n(0, 3, "asContextField") == 0
 	for i, w := range g.vars {
 		if w == v {
-			return &c04Expr{Op: "var", Var: i}
+			return &c04Expr{Op: "var", Var: i, Field: field}
 		}
 	}
 	g.vars = append(g.vars, v)
-	return &c04Expr{Op: "var", Var: len(g.vars) - 1}
+	return &c04Expr{Op: "var", Var: len(g.vars) - 1, Field: field}
 }
 
 var c04Ints = []int64{-3, -2, -1, 0, 1, 2, 3, 7, 0, 1, 2}
@@ -282,6 +284,7 @@ func c04Level(e *c04Expr) int {
 type c04Shape struct {
 	mixedLevels bool // two operators of different levels adjacent without parentheses
 	tightAfter  bool // a no-space operator directly after ) ident literal
+	field       bool // an operand is a field of the context
 	nOps        int
 	opPairs     map[string]bool
 }
@@ -339,6 +342,10 @@ func c04raw(e *c04Expr, sh *c04Shape) string {
 	case "bool":
 		return strconv.FormatBool(e.Bool)
 	case "var":
+		if e.Field {
+			sh.field = true
+			return fmt.Sprintf(".V%d", e.Var)
+		}
 		return fmt.Sprintf("v%d", e.Var)
 	case "probe":
 		return fmt.Sprintf("p(%d, %s)", e.ID, c04p(e.A, 0, sh))
@@ -703,8 +710,10 @@ func judgeC04(c c04Case) (v core.Verdict) {
 	}
 	var log []int
 	vars := jet.VarMap{}
+	data := map[string]interface{}{}
 	for i, vr := range c.Vars {
 		vars.Set(fmt.Sprintf("v%d", i), vr.goValue())
+		data[fmt.Sprintf("V%d", i)] = vr.goValue()
 	}
 	vars.SetFunc("p", func(a jet.Arguments) reflect.Value {
 		log = append(log, int(a.Get(0).Float()))
@@ -730,7 +739,10 @@ func judgeC04(c c04Case) (v core.Verdict) {
 		v.Failf("%s (vars %+v) should evaluate to %q but does not parse: %s", tpl, c.Vars, wantStr, po)
 		return
 	}
-	o := jetrun.Exec(t, vars, nil)
+	if sh.field {
+		v.Label("context-field-operand")
+	}
+	o := jetrun.Exec(t, vars, data)
 	if o.Failed() {
 		v.Failf("%s (vars %+v) should evaluate to %q but failed: %s", tpl, c.Vars, wantStr, o)
 		return
